@@ -100,12 +100,12 @@ theorem shr_digit {j d e : Nat} (hj : j ≤ bits) (hd : d < B) :
   have hp : 0 < 2 ^ (bits - j) := Nat.two_pow_pos _
   have hpj : 0 < 2 ^ j := Nat.two_pow_pos _
   have e1 : ((d <<< (bits - j)) &&& compbitmask) >>> bits = d / 2 ^ j := by
-    have hc : compbitmask = bitmask <<< bits := by rw [compbitmask_eq, Nat.shiftLeft_eq]
-    rw [hc, Nat.shiftRight_and_distrib, Nat.shiftLeft_shiftRight, and_bitmask, shr_bits, Nat.shiftLeft_eq]
     have : d * 2 ^ (bits - j) / B = d / 2 ^ j := by
       rw [hB, Nat.mul_div_mul_right _ _ hp]
-    rw [this]
-    exact Nat.mod_eq_of_lt (Nat.lt_of_le_of_lt (Nat.div_le_self _ _) hd)
+    have hlt : (d <<< (bits - j)) >>> bits < B := by
+      rw [shr_bits, Nat.shiftLeft_eq, this]
+      exact Nat.lt_of_le_of_lt (Nat.div_le_self _ _) hd
+    rw [and_compbitmask_shr hlt, shr_bits, Nat.shiftLeft_eq, this]
   have e2 : (e <<< (bits - j)) &&& bitmask = 2 ^ (bits - j) * (e % 2 ^ j) := by
     rw [and_bitmask, Nat.shiftLeft_eq, hB, Nat.mul_comm (2 ^ j), Nat.mul_comm e, Nat.mul_mod_mul_left]
   have e3 : d / 2 ^ j < 2 ^ (bits - j) := by
